@@ -241,7 +241,7 @@ class Expander:
                 group = []
                 i += 1
                 while i < len(lines) and lines[i].strip().startswith("//@") and \
-                        re.match(r"//@(\||\+|edit|loop|before|after|endfn)", lines[i].strip()):
+                        re.match(r"//@(\||\+|#|edit|loop|before|after|endfn)", lines[i].strip()):
                     if lines[i].strip().startswith("//@endfn"):
                         i += 1
                         break
@@ -494,6 +494,8 @@ class Expander:
             elif cur[0] == "edit":
                 edits[cur[1]][2] += "\n" + text
         for g in group:
+            if g.startswith("#"):
+                continue
             if g.startswith("|"):
                 add_line(g[1:].rstrip() if not g.startswith("| ") else g[2:].rstrip())
             elif g.startswith("+"):
@@ -526,6 +528,10 @@ class Expander:
         pieces.extend(sig_pieces)
         if "external_body" in flags:
             pieces.insert(0, Piece("ins", "#[verifier::external_body]\n"))
+        if "nodecreases" in flags:
+            # termination is not claimed for this function (verifier-only attribute)
+            pieces.insert(0, Piece("ins", "#[verifier::exec_allows_no_decreases_clause]\n"))
+            self.log.append("fn %s: termination not claimed (exec_allows_no_decreases_clause)" % name)
         if spec_sig:
             pieces.append(Piece("ins", "\n" + "\n".join("        " + s for s in spec_sig) + "\n    "))
         if not has_body:
